@@ -300,6 +300,8 @@ class ExchangeContext(DisplacementContext):
         Integer indices of atoms that were deleted in the last move.
     _deleted_atoms : Atoms
         Atoms that were deleted in the last move.
+    _deleted_constraints : list | None
+        Copy of the constraints as they were before atoms were deleted in the last move, restored when the move is reverted.
     accessible_volume : float
         The accessible volume of the system.
     chemical_potential : float
@@ -316,6 +318,7 @@ class ExchangeContext(DisplacementContext):
         "_added_atoms",
         "_added_indices",
         "_deleted_atoms",
+        "_deleted_constraints",
         "_deleted_indices",
         "accessible_volume",
         "chemical_potential",
@@ -343,6 +346,7 @@ class ExchangeContext(DisplacementContext):
         self._added_atoms: Atoms = Atoms()
         self._deleted_indices: IntegerArray = []
         self._deleted_atoms: Atoms = Atoms()
+        self._deleted_constraints: list[Any] | None = None
 
         self.particle_delta = 0
 
@@ -357,6 +361,9 @@ class ExchangeContext(DisplacementContext):
                 raise ValueError("Last deleted atoms was not saved.")
 
             reinsert_atoms(self.atoms, self._deleted_atoms, self._deleted_indices)
+
+            if self._deleted_constraints is not None:
+                self.atoms.set_constraint(self._deleted_constraints)
 
         super().revert_state()
         self.reset()
